@@ -30,8 +30,8 @@ pub struct KyteaSpec {
     /// write failure-link (suffix) outputs on every state like a real KyTea automaton
     #[serde(default)]
     pub inherit_outputs: bool,
-    /// header flags do_ws / do_tags are written as 0 (a model trained with -nows / -notags); the
-    /// layout read at the pinned commit does not depend on them
+    /// header fields that the reader at the pinned commit parses and ignores take unusual values:
+    /// do_tags = 0, and in the word-segmentation model solver type 7, bias flag 0, multiplier 0.25
     #[serde(default)]
     pub flags_off: bool,
 }
@@ -169,12 +169,14 @@ pub fn write_kytea(k: &KyteaSpec) -> Vec<u8> {
     w.0.extend(map_s.as_bytes());
     w.u8(0);
     // word segmentation model
+    // header fields of the word-segmentation model that the reader at the pinned commit parses and
+    // ignores (solver type, bias flag, multiplier) take other values when flags_off is set
     w.u32(2); // n_classes
-    w.u8(1);
+    w.u8(if k.flags_off { 7 } else { 1 }); // solver type
     w.i32(1);
     w.i32(-1);
-    w.u8(1);
-    w.f64(1.5);
+    w.u8(if k.flags_off { 0 } else { 1 }); // bias flag
+    w.f64(if k.flags_off { 0.25 } else { 1.5 }); // multiplier
     w.u8(1); // feature lookup active
     let ck: Vec<Vec<char>> = k.char_ngrams.iter().map(|(s, _)| s.chars().collect()).collect();
     write_dict(&mut w, &k.char_map, 0, &ck, k.inherit_outputs, &|w, i| w.vec_i16(&k.char_ngrams[i].1));
